@@ -5,6 +5,7 @@ import (
 	"fmt"
 	"io"
 	"strings"
+	"sync"
 	"testing"
 	"time"
 
@@ -27,6 +28,14 @@ import (
 // on accept newest = max(newest, t).
 
 const c07window = 1000000
+
+var c07dialect = func() *dialect.ReadWriter {
+	rw := &dialect.ReadWriter{Dialect: &dialect.Dialect{Version: 3, Messages: []message.Message{&common.MessageHeartbeat{}}}}
+	if err := rw.Initialize(); err != nil {
+		panic(err)
+	}
+	return rw
+}()
 
 type c07model struct {
 	has    bool
@@ -85,6 +94,10 @@ func c07runHistory(rep *vh.Report, keyRaw []byte, key *frame.V2Key, hist []uint6
 	}
 	guard(rep, "what=panic", func() interface{} { return hist }, func() {
 		rd := &frame.Reader{ByteReader: bytes.NewReader(stream), InKey: key}
+		if len(hist)%2 == 0 {
+			// a dialect is configured too; the frames carry ids outside it (they come back raw): the window works the same
+			rd.DialectRW = c07dialect
+		}
 		_ = rd.Initialize()
 		var m c07model
 		for i, ent := range hist {
@@ -360,6 +373,65 @@ func TestC07(t *testing.T) {
 			return tr.WriteAt(i).Data, nil
 		}, nNode)
 		node.Close()
+	}
+	// writes packed around wall-clock second boundaries (a timestamp assembled from two clock readings breaks there)
+	{
+		type link struct {
+			write func(i int) ([]byte, error)
+		}
+		mk := func() link {
+			rw := &recWriter{}
+			fw := &frame.Writer{ByteWriter: rw, DialectRW: drw}
+			_ = fw.Initialize()
+			sw := &streamwriter.Writer{FrameWriter: fw, Version: streamwriter.V2, SystemID: 1, Key: key}
+			_ = sw.Initialize()
+			m := &common.MessageHeartbeat{MavlinkVersion: 3}
+			return link{func(i int) ([]byte, error) {
+				rw.reset()
+				m.CustomMode = uint32(i)
+				err := sw.Write(m)
+				return rw.all(), err
+			}}
+		}
+		crossings := vh.Pick(5, 30)
+		var wg sync.WaitGroup
+		for w := 0; w < 16; w++ {
+			wg.Add(1)
+			go func(w int) {
+				defer wg.Done()
+				l := mk()
+				var prev uint64
+				for c := 0; c < crossings; c++ {
+					now := time.Now()
+					next := now.Truncate(time.Second).Add(time.Second)
+					time.Sleep(next.Sub(now) - 3*time.Millisecond)
+					for i := 0; time.Now().Before(next.Add(3 * time.Millisecond)); i++ {
+						before := ticksNow()
+						wire, err := l.write(i)
+						after := ticksNow()
+						if err != nil || len(wire) == 0 {
+							return
+						}
+						f, _, st := ref.ParseAt(wire, 0)
+						if st != ref.ParseOK {
+							return
+						}
+						rep.Count("writes_around_second_boundaries", 1)
+						if f.Timestamp < before || f.Timestamp > after {
+							rep.Violation("what=writer:streamwriter:range", fmt.Sprintf("outgoing timestamp %d outside [%d,%d] next to a wall-clock second boundary", f.Timestamp, before, after), nil)
+							return
+						}
+						if f.Timestamp < prev {
+							rep.Violation("what=writer:streamwriter:decrease", fmt.Sprintf("outgoing timestamp decreased across a second boundary: %d after %d", f.Timestamp, prev), nil)
+							return
+						}
+						prev = f.Timestamp
+					}
+				}
+			}(w)
+		}
+		wg.Wait()
+		rep.Eval(int(rep.Counter("writes_around_second_boundaries")))
 	}
 	rep.Floor("exhaustive_histories", 20000)
 	rep.Floor("outgoing_timestamps_node", 1000)
